@@ -65,8 +65,10 @@ def mem_text(m, form_op=None):
             parts.append("%s*%d" % (n, 1 << m["shift"]))
     d = m["disp"]
     if not parts:
-        if not (-0x80000000 <= d <= 0xFFFFFFFF):
-            return None  # llvm-mc silently truncates wider absolute addresses: no verdict from it
+        if not (-0x80000000 <= d <= 0x7FFFFFFF):
+            # llvm-mc silently truncates wider absolute addresses, and in 64-bit mode it assembles [0x80000000..0xffffffff] as a
+            # sign-extended disp32 (another address) where AsmJit correctly inserts an address-size prefix: no verdict from it
+            return None
         inner = "0x%x" % (d if d >= 0 else d & 0xFFFFFFFF)
     else:
         inner = " + ".join(parts)
@@ -101,6 +103,11 @@ def render(case, form):
     if name in ("push", "pop", "mov") and any(o[0] == "R" and o[1] == "sreg" for o in case["ops"]):
         return None  # LLVM picks operand sizes of its own for segment-register moves
     name = LLVM_NAME.get(name, name)
+    if case["arch"] == "x64" and "REX.W" in form["opcodeString"] and form["opcode"]["mod"] == "" and \
+            any(o[0] == "M" and (o[1]["seg"] or (o[1]["base"] and o[1]["base"][0] == "gp32")) for o in case["ops"]):
+        # llvm-mc 14 puts REX.W in front of the segment / address-size prefix of string instructions (48 67 AB), which makes
+        # the CPU - and objdump - ignore REX: its bytes are no reference for these cases
+        return None
     if form["prefix"] in ("VEX", "EVEX") and any(o[0] == "M" and any(o[1][k] and o[1][k][0] == "gp16" for k in ("base", "index")) for o in case["ops"]):
         return None  # llvm-mc 14 does not scale disp8 of EVEX instructions with 16-bit addressing (objdump and the SDM do)
     if opts & (G.OPT_SHORT | G.OPT_LONG | G.OPT_MODMR | G.OPT_MODRM | G.OPT_REX):
